@@ -4,18 +4,27 @@ import IbModel.Proofs.Assertions
 # C20 — the shipped test assertions accept exactly equal collections
 
 Property theorems (helper lemmas live in `Proofs/Assertions.lean`). `true` = the assertion returns,
-`false` = it panics. Multiset equality of lists is `List.Perm`.
+`false` = it panics. Multiset equality of lists is `List.Perm`. Assumption throughout: `==` on
+elements, keys and values is a lawful (reflexive) equality — `DecidableEq`; Rust only demands
+`PartialEq` for some of them, and with `f64::NAN` a collection is rejected against itself.
 
-* ordered      `assertEqual_iff`      : passes ↔ `a = b`                                  (all inputs)
-* unordered    `assertUnordered_iff`  : passes ↔ `a.Perm b`                               (all inputs)
-* key/value    `assertKv_iff`         : passes ↔ `a.Perm b`       (all inputs, repeated keys included;
-                                        any total, transitive, antisymmetric key order)
-* grouped      `assertGrouped_iff`    : passes ↔ same keys ∧ per key the same multiset of values
-                                        (grouped data = keys pairwise distinct on a side)
-               `assertGrouped_sound_any` / `assertGrouped_flatten`: what acceptance means for inputs
-                                        with a repeated key; `assertGrouped_repeated_key_*` witnesses.
+* ordered      `assertEqual_iff`        : passes ↔ `a = b`                                (all inputs)
+* unordered    `assertUnordered_iff`    : passes ↔ `a.Perm b`                             (all inputs)
+* key/value    `assertKv_iff`           : passes ↔ `a.Perm b`     (all inputs, repeated keys included;
+                                          any total, transitive, antisymmetric key order)
+* grouped      `assertGrouped_iff_groups`: passes ↔ `GroupsEquiv a b` — equal as multisets of groups
+                                          (key, multiset of values)  (all inputs, repeated keys included)
+               `assertGrouped_iff`      : passes ↔ same keys ∧ per key the same multiset of values
+                                          (grouped data = keys pairwise distinct on a side)
+               `assertGrouped_flatten`, `assertGrouped_rejects_group_multiplicity`, legacy witnesses.
+* maps         `assertMaps_iff`         : passes ↔ same entries; `assertMaps_mkMap_iff` for insert sequences
+* size / contains / all / any / none    : `assertSize_iff`, `assertContains_iff`, `assertAll_iff`,
+                                          `assertAny_iff`, `assertNone_iff`, `assert_pred_perm`
+* the driver's key order                : `leInt_order`, `assertKv_leInt_iff`, `assertGrouped_leInt_iff`
 -/
 namespace IB.Assertions
+
+set_option linter.unusedSectionVars false
 
 variable {α : Type} [DecidableEq α]
 
@@ -30,6 +39,15 @@ theorem leNat_order :
   · intro a b c h1 h2; simp only [leNat, decide_eq_true_eq] at *; omega
   · intro a b; simp only [leNat, Bool.or_eq_true, decide_eq_true_eq]; omega
   · intro a b h1 h2; simp only [leNat, decide_eq_true_eq] at *; omega
+
+/-- the order hypotheses hold for the key order the driver evaluates (`Ord` on `i64`, modelled on `Int`) -/
+theorem leInt_order :
+    (∀ a b c, leInt a b → leInt b c → leInt a c) ∧ (∀ a b, leInt a b || leInt b a) ∧
+      (∀ a b, leInt a b → leInt b a → a = b) := by
+  refine ⟨?_, ?_, ?_⟩
+  · intro a b c h1 h2; simp only [leInt, decide_eq_true_eq] at *; omega
+  · intro a b; simp only [leInt, Bool.or_eq_true, decide_eq_true_eq]; omega
+  · intro a b h1 h2; simp only [leInt, decide_eq_true_eq] at *; omega
 
 /-! ## ordered assertion: passes iff the sequences are equal -/
 
@@ -179,13 +197,127 @@ theorem legacy_kv_rejects_repeated_key :
 
 /-! ## grouped assertion (`assert_grouped_kv_equal`) -/
 
-/-- what the code computes, for ALL inputs: after the stable sort by key the two sides have the same
+/-- `a` and `b` are equal as multisets of groups, a group being a key with a multiset of values:
+    `b` can be rearranged so that the two sides agree, position by position, in the key and in the
+    multiset of values. (For pairwise distinct keys this is the property's "same keys and, per key,
+    the same multiset of values": `groupsEquiv_iff_of_nodup`.) -/
+def GroupsEquiv (a b : List (κ × List α)) : Prop :=
+  ∃ b' : List (κ × List α), b'.Perm b ∧ a.length = b'.length ∧
+    ∀ p ∈ a.zip b', p.1.1 = p.2.1 ∧ p.1.2.Perm p.2.2
+
+/-- C20 (grouped, soundness — ALL inputs, repeated keys included, no assumption on the key order):
+    whatever `assert_grouped_kv_equal` accepts is equal as a multiset of groups. -/
+theorem assertGrouped_sound (le : κ → κ → Bool) (a b : List (κ × List α))
+    (h : assertGrouped le a b = true) : GroupsEquiv a b := by
+  rw [assertGrouped_eq_assertKv] at h
+  exact (perm_map_qrow_iff a b).mp (assertKv_sound le _ _ h)
+
+/-- C20 (grouped, completeness — ALL inputs, repeated keys included): collections that are equal as
+    multisets of groups are accepted, for any total, transitive, antisymmetric key order. -/
+theorem assertGrouped_complete_groups (le : κ → κ → Bool)
+    (trans : ∀ a b c, le a b → le b c → le a c) (total : ∀ a b, le a b || le b a)
+    (antisymm : ∀ a b, le a b → le b a → a = b) (a b : List (κ × List α))
+    (h : GroupsEquiv a b) : assertGrouped le a b = true := by
+  rw [assertGrouped_eq_assertKv]
+  exact assertKv_complete le trans total antisymm _ _ ((perm_map_qrow_iff a b).mpr h)
+
+/-- **C20 (grouped, all inputs)**: the current `assert_grouped_kv_equal` returns **iff** the two
+    collections are equal as multisets of groups — repeated keys included. -/
+theorem assertGrouped_iff_groups (le : κ → κ → Bool)
+    (trans : ∀ a b c, le a b → le b c → le a c) (total : ∀ a b, le a b || le b a)
+    (antisymm : ∀ a b, le a b → le b a → a = b) (a b : List (κ × List α)) :
+    assertGrouped le a b = true ↔ GroupsEquiv a b :=
+  ⟨assertGrouped_sound le a b, assertGrouped_complete_groups le trans total antisymm a b⟩
+
+/-- rows listed in any other order, each group's values listed in any other order: accepted -/
+theorem assertGrouped_accepts_perm (le : κ → κ → Bool)
+    (trans : ∀ a b c, le a b → le b c → le a c) (total : ∀ a b, le a b || le b a)
+    (antisymm : ∀ a b, le a b → le b a → a = b) (a b : List (κ × List α)) (h : a.Perm b) :
+    assertGrouped le a b = true := by
+  apply assertGrouped_complete_groups le trans total antisymm
+  refine ⟨a, h, rfl, fun p hp => ?_⟩
+  rw [eq_of_mem_zip_self a p hp]; exact ⟨rfl, List.Perm.refl _⟩
+
+/-- In particular it never accepts two collections in which some group (a key with a multiset of
+    values) occurs a different number of times. -/
+theorem assertGrouped_rejects_group_multiplicity (le : κ → κ → Bool) (a b : List (κ × List α))
+    (k : κ) (vs : List α)
+    (h : a.countP (fun r => r.1 == k && sameValues r.2 vs) ≠
+         b.countP (fun r => r.1 == k && sameValues r.2 vs)) :
+    assertGrouped le a b = false := by
+  cases hc : assertGrouped le a b with
+  | false => rfl
+  | true =>
+    rw [assertGrouped_eq_assertKv] at hc
+    have hp := assertKv_sound le _ _ hc
+    exact absurd (by rw [← count_qrow, ← count_qrow]; exact List.perm_iff_count.mp hp _) h
+
+/-! ### consequences of `GroupsEquiv` (what acceptance means in the property's own words) -/
+
+/-- the same multiset of keys -/
+theorem groupsEquiv_keys (a b : List (κ × List α)) (h : GroupsEquiv a b) :
+    (a.map Prod.fst).Perm (b.map Prod.fst) := by
+  obtain ⟨b', hp, hl, hz⟩ := h
+  have hk : a.map Prod.fst = b'.map Prod.fst :=
+    (map_fst_eq_iff_zip _ _).mpr ⟨hl, fun p hp => (hz p hp).1⟩
+  exact hk ▸ hp.map Prod.fst
+
+/-- the key/value rows the two sides stand for are equal as multisets -/
+theorem groupsEquiv_flatten (a b : List (κ × List α)) (h : GroupsEquiv a b) :
+    (flattenGroups a).Perm (flattenGroups b) := by
+  obtain ⟨b', hp, hl, hz⟩ := h
+  exact (flattenGroups_perm_of_zip _ _ hl hz).trans (hp.flatMap_right _)
+
+/-- if the keys of ONE side are pairwise distinct, every key's two groups are equal as multisets -/
+theorem groupsEquiv_values (a b : List (κ × List α))
+    (hnd : (a.map Prod.fst).Nodup ∨ (b.map Prod.fst).Nodup) (h : GroupsEquiv a b) :
+    ∀ k vs ws, (k, vs) ∈ a → (k, ws) ∈ b → vs.Perm ws := by
+  obtain ⟨b', hp, hl, hz⟩ := h
+  intro k vs ws hva hwb
+  rcases hnd with hnd | hnd
+  · -- the partner of `(k, ws)` on the `a` side has key `k`, so it is `(k, vs)`
+    obtain ⟨r, hr⟩ := exists_zip_of_mem_right _ _ hl (k, ws) (hp.mem_iff.mpr hwb)
+    have hra : r ∈ a := (List.of_mem_zip hr).1
+    have hrel := hz _ hr
+    have : r = (k, vs) := eq_of_mem_of_nodup_keys a hnd r hra (k, vs) hva hrel.1
+    subst this; exact hrel.2
+  · have hnd' : (b'.map Prod.fst).Nodup := (hp.map Prod.fst).nodup_iff.mpr hnd
+    obtain ⟨s, hs⟩ := exists_zip_of_mem_left _ _ hl (k, vs) hva
+    have hsb : s ∈ b' := (List.of_mem_zip hs).2
+    have hrel := hz _ hs
+    have : s = (k, ws) :=
+      eq_of_mem_of_nodup_keys b' hnd' s hsb (k, ws) (hp.mem_iff.mpr hwb) hrel.1.symm
+    subst this; exact hrel.2
+
+/-- C20 (grouped, soundness for the keys — all inputs): accepted collections have the same multiset
+    of keys. -/
+theorem assertGrouped_sound_keys (le : κ → κ → Bool) (a b : List (κ × List α))
+    (h : assertGrouped le a b = true) : (a.map Prod.fst).Perm (b.map Prod.fst) :=
+  groupsEquiv_keys a b (assertGrouped_sound le a b h)
+
+/-- C20 (grouped, soundness for the values): if the keys of ONE side are pairwise distinct, every
+    key's two groups are equal as multisets. -/
+theorem assertGrouped_sound_values (le : κ → κ → Bool) (a b : List (κ × List α))
+    (hnd : (a.map Prod.fst).Nodup ∨ (b.map Prod.fst).Nodup)
+    (h : assertGrouped le a b = true) :
+    ∀ k vs ws, (k, vs) ∈ a → (k, ws) ∈ b → vs.Perm ws :=
+  groupsEquiv_values a b hnd (assertGrouped_sound le a b h)
+
+/-- … and, for ANY input, the key/value rows the two sides stand for are equal as multisets: the
+    grouped assertion never accepts two collections that differ in how often a `(key, value)` occurs. -/
+theorem assertGrouped_flatten (le : κ → κ → Bool) (a b : List (κ × List α))
+    (h : assertGrouped le a b = true) : (flattenGroups a).Perm (flattenGroups b) :=
+  groupsEquiv_flatten a b (assertGrouped_sound le a b h)
+
+/-! ### the code between the two grouped `fix:` commits (position-wise comparison after the sort) -/
+
+/-- what that code computed, for ALL inputs: after the stable sort by key the two sides have the same
     length and, position by position, the same key and the same multiset of values. -/
-theorem assertGrouped_iff_sorted (le : κ → κ → Bool) (a b : List (κ × List α)) :
-    assertGrouped le a b = true ↔
+theorem legacy_assertGroupedPos_iff_sorted (le : κ → κ → Bool) (a b : List (κ × List α)) :
+    Legacy.assertGroupedPos le a b = true ↔
       ((sortByKey le a).length = (sortByKey le b).length ∧
         ∀ p ∈ (sortByKey le a).zip (sortByKey le b), p.1.1 = p.2.1 ∧ p.1.2.Perm p.2.2) := by
-  simp only [assertGrouped]
+  simp only [Legacy.assertGroupedPos]
   rw [Bool.and_eq_true, beq_iff_eq, List.all_eq_true]
   constructor
   · rintro ⟨hl, h⟩
@@ -193,49 +325,32 @@ theorem assertGrouped_iff_sorted (le : κ → κ → Bool) (a b : List (κ × Li
   · rintro ⟨hl, h⟩
     exact ⟨hl, fun p hp => (groupTest_iff p.1 p.2).mpr (h p hp)⟩
 
-/-- C20 (grouped, soundness for the keys — all inputs): accepted collections have the same multiset
-    of keys. -/
-theorem assertGrouped_sound_keys (le : κ → κ → Bool) (a b : List (κ × List α))
-    (h : assertGrouped le a b = true) : (a.map Prod.fst).Perm (b.map Prod.fst) := by
-  obtain ⟨hl, hz⟩ := (assertGrouped_iff_sorted le a b).mp h
-  have hk : (sortByKey le a).map Prod.fst = (sortByKey le b).map Prod.fst :=
-    (map_fst_eq_iff_zip _ _).mpr ⟨hl, fun p hp => (hz p hp).1⟩
-  have h1 := (sortByKey_perm le a).map Prod.fst
-  have h2 := (sortByKey_perm le b).map Prod.fst
-  exact h1.symm.trans (hk ▸ h2)
+/-- it was sound (whatever it accepted is equal as a multiset of groups, so the current code accepts
+    it too: the repair only widened acceptance, `assertGrouped_of_legacyPos`) … -/
+theorem legacy_assertGroupedPos_sound (le : κ → κ → Bool) (a b : List (κ × List α))
+    (h : Legacy.assertGroupedPos le a b = true) : GroupsEquiv a b := by
+  obtain ⟨hl, hz⟩ := (legacy_assertGroupedPos_iff_sorted le a b).mp h
+  have hp : (sortByKey le a).Perm a := sortByKey_perm le a
+  have hq : (a.map qrow).Perm (b.map qrow) :=
+    (hp.map qrow).symm.trans
+      (((map_qrow_eq_iff_zip _ _).mpr ⟨hl, hz⟩) ▸ (sortByKey_perm le b).map qrow)
+  exact (perm_map_qrow_iff a b).mp hq
 
-/-- C20 (grouped, soundness for the values): if the keys of ONE side are pairwise distinct, every
-    key's two groups are equal as multisets. -/
-theorem assertGrouped_sound_values (le : κ → κ → Bool) (a b : List (κ × List α))
-    (hnd : (a.map Prod.fst).Nodup ∨ (b.map Prod.fst).Nodup)
-    (h : assertGrouped le a b = true) :
-    ∀ k vs ws, (k, vs) ∈ a → (k, ws) ∈ b → vs.Perm ws := by
-  obtain ⟨hl, hz⟩ := (assertGrouped_iff_sorted le a b).mp h
-  intro k vs ws hva hwb
-  have hpa := sortByKey_perm le a
-  have hpb := sortByKey_perm le b
-  rcases hnd with hnd | hnd
-  · -- the partner of `(k, ws)` on the `a` side has key `k`, so it is `(k, vs)`
-    obtain ⟨r, hr⟩ := exists_zip_of_mem_right _ _ hl (k, ws) (hpb.mem_iff.mpr hwb)
-    have hra : r ∈ a := hpa.mem_iff.mp (List.of_mem_zip hr).1
-    have hrel := hz _ hr
-    have : r = (k, vs) := eq_of_mem_of_nodup_keys a hnd r hra (k, vs) hva hrel.1
-    subst this; exact hrel.2
-  · obtain ⟨s, hs⟩ := exists_zip_of_mem_left _ _ hl (k, vs) (hpa.mem_iff.mpr hva)
-    have hsb : s ∈ b := hpb.mem_iff.mp (List.of_mem_zip hs).2
-    have hrel := hz _ hs
-    have : s = (k, ws) := eq_of_mem_of_nodup_keys b hnd s hsb (k, ws) hwb hrel.1.symm
-    subst this; exact hrel.2
+theorem assertGrouped_of_legacyPos (le : κ → κ → Bool)
+    (trans : ∀ a b c, le a b → le b c → le a c) (total : ∀ a b, le a b || le b a)
+    (antisymm : ∀ a b, le a b → le b a → a = b) (a b : List (κ × List α))
+    (h : Legacy.assertGroupedPos le a b = true) : assertGrouped le a b = true :=
+  assertGrouped_complete_groups le trans total antisymm a b (legacy_assertGroupedPos_sound le a b h)
 
-/-- C20 (grouped, completeness — all inputs, no distinctness needed): the same multiset of keys and,
-    per key, the same multiset of values ⇒ accepted (total, transitive, antisymmetric key order). -/
-theorem assertGrouped_complete (le : κ → κ → Bool)
+/-- … and complete for the property's right-hand side: the same multiset of keys and, per key, the
+    same multiset of values ⇒ accepted (all inputs, no distinctness needed). -/
+theorem legacy_assertGroupedPos_complete (le : κ → κ → Bool)
     (trans : ∀ a b c, le a b → le b c → le a c) (total : ∀ a b, le a b || le b a)
     (antisymm : ∀ a b, le a b → le b a → a = b) (a b : List (κ × List α))
     (hk : (a.map Prod.fst).Perm (b.map Prod.fst))
     (hv : ∀ k vs ws, (k, vs) ∈ a → (k, ws) ∈ b → vs.Perm ws) :
-    assertGrouped le a b = true := by
-  rw [assertGrouped_iff_sorted]
+    Legacy.assertGroupedPos le a b = true := by
+  rw [legacy_assertGroupedPos_iff_sorted]
   have hpa := sortByKey_perm le a
   have hpb := sortByKey_perm le b
   have hkeys : (sortByKey le a).map Prod.fst = (sortByKey le b).map Prod.fst :=
@@ -251,18 +366,94 @@ theorem assertGrouped_complete (le : κ → κ → Bool)
     rw [hz p hp]; exact this
   exact hv _ _ _ h1 h2
 
-/-- **C20 (grouped)**: for grouped data (keys pairwise distinct on both sides — one side suffices,
-    see `assertGrouped_sound_values`) and any total, transitive, antisymmetric key order, the current
-    `assert_grouped_kv_equal` returns **iff** both sides have the same keys and, per key, the same
-    multiset of values. -/
+/-- … but NOT complete for multiset equality of groups: with a repeated key the stable sort leaves that
+    key's groups in input order and they were compared position by position (replayed on the real
+    code before the fix: it panicked). -/
+theorem legacy_groupedPos_rejects_repeated_key :
+    Legacy.assertGroupedPos leNat [(0, [1]), (0, [2])] [(0, [2]), (0, [1])] = false ∧
+      ([(0, [1]), (0, [2])] : List (Nat × List Nat)).Perm [(0, [2]), (0, [1])] := by
+  constructor
+  · simp only [Legacy.assertGroupedPos]
+    rw [sortByKey_of_sorted leNat _ (by decide), sortByKey_of_sorted leNat _ (by decide)]
+    decide
+  · exact List.Perm.swap _ _ _
+
+/-- witness: the input that the previous code rejected is accepted now -/
+theorem assertGrouped_accepts_repeated_key :
+    assertGrouped leNat [(0, [1]), (0, [2])] [(0, [2]), (0, [1])] = true :=
+  assertGrouped_accepts_perm leNat leNat_order.1 leNat_order.2.1 leNat_order.2.2 _ _
+    (List.Perm.swap _ _ _)
+
+/-- witness: with a repeated key, the same keys and the same flattened rows are NOT enough — the
+    groups themselves must agree (`[1,2]`,`[]` against `[1]`,`[2]`) -/
+theorem assertGrouped_rejects_regrouped :
+    assertGrouped leNat [(0, [1, 2]), (0, [])] [(0, [1]), (0, [2])] = false ∧
+      (flattenGroups [(0, [1, 2]), (0, ([] : List Nat))]).Perm (flattenGroups [(0, [1]), (0, [2])]) := by
+  constructor
+  · simp only [assertGrouped]
+    rw [sortByKey_of_sorted leNat _ (by decide), sortByKey_of_sorted leNat _ (by decide)]
+    decide
+  · exact List.Perm.refl _
+
+/-! ### grouped data (keys pairwise distinct): the property's own right-hand side -/
+
+/-- the same multiset of keys and, per key, the same multiset of values ⇒ equal as multisets of
+    groups (all inputs, no distinctness and no key order needed) -/
+theorem groupsEquiv_of_keys_values : ∀ (a b : List (κ × List α)),
+    (a.map Prod.fst).Perm (b.map Prod.fst) →
+    (∀ k vs ws, (k, vs) ∈ a → (k, ws) ∈ b → vs.Perm ws) → GroupsEquiv a b
+  | [], b, hk, _ => by
+    have : b = [] := by simpa using hk.symm.eq_nil
+    subst this; exact ⟨[], List.Perm.refl _, rfl, by simp⟩
+  | (k, vs) :: a, b, hk, hv => by
+    have hkb : k ∈ b.map Prod.fst := hk.mem_iff.mp (by simp)
+    obtain ⟨⟨k', ws⟩, hmem, hk'⟩ := List.mem_map.mp hkb
+    simp only at hk'; subst hk'
+    have hb : b.Perm ((k', ws) :: b.erase (k', ws)) := List.perm_cons_erase hmem
+    have hk2 : (a.map Prod.fst).Perm ((b.erase (k', ws)).map Prod.fst) := by
+      have := hk.trans (hb.map Prod.fst)
+      simp only [List.map_cons] at this
+      exact this.cons_inv
+    obtain ⟨b'', hp, hl, hz⟩ := groupsEquiv_of_keys_values a (b.erase (k', ws)) hk2
+      (fun k vs ws h1 h2 => hv k vs ws (List.mem_cons_of_mem _ h1) (List.mem_of_mem_erase h2))
+    refine ⟨(k', ws) :: b'', (hp.cons _).trans hb.symm, by simp [hl], ?_⟩
+    intro p hp'
+    simp only [List.zip_cons_cons, List.mem_cons] at hp'
+    rcases hp' with rfl | hp'
+    · exact ⟨rfl, hv k' vs ws (by simp) hmem⟩
+    · exact hz p hp'
+
+/-- C20 (grouped, completeness in the property's words — all inputs, no distinctness needed): the same
+    multiset of keys and, per key, the same multiset of values ⇒ accepted. -/
+theorem assertGrouped_complete (le : κ → κ → Bool)
+    (trans : ∀ a b c, le a b → le b c → le a c) (total : ∀ a b, le a b || le b a)
+    (antisymm : ∀ a b, le a b → le b a → a = b) (a b : List (κ × List α))
+    (hk : (a.map Prod.fst).Perm (b.map Prod.fst))
+    (hv : ∀ k vs ws, (k, vs) ∈ a → (k, ws) ∈ b → vs.Perm ws) :
+    assertGrouped le a b = true :=
+  assertGrouped_complete_groups le trans total antisymm a b (groupsEquiv_of_keys_values a b hk hv)
+
+/-- for keys pairwise distinct on one side, "equal as multisets of groups" IS the property's
+    right-hand side -/
+theorem groupsEquiv_iff_of_nodup (a b : List (κ × List α))
+    (hnd : (a.map Prod.fst).Nodup ∨ (b.map Prod.fst).Nodup) :
+    GroupsEquiv a b ↔
+      ((a.map Prod.fst).Perm (b.map Prod.fst) ∧
+        ∀ k vs ws, (k, vs) ∈ a → (k, ws) ∈ b → vs.Perm ws) :=
+  ⟨fun h => ⟨groupsEquiv_keys a b h, groupsEquiv_values a b hnd h⟩,
+   fun h => groupsEquiv_of_keys_values a b h.1 h.2⟩
+
+/-- **C20 (grouped)**: for grouped data (keys pairwise distinct on a side) and any total, transitive,
+    antisymmetric key order, the current `assert_grouped_kv_equal` returns **iff** both sides have the
+    same keys and, per key, the same multiset of values. -/
 theorem assertGrouped_iff (le : κ → κ → Bool)
     (trans : ∀ a b c, le a b → le b c → le a c) (total : ∀ a b, le a b || le b a)
     (antisymm : ∀ a b, le a b → le b a → a = b) (a b : List (κ × List α))
-    (hna : (a.map Prod.fst).Nodup) (_hnb : (b.map Prod.fst).Nodup) :
+    (hnd : (a.map Prod.fst).Nodup ∨ (b.map Prod.fst).Nodup) :
     assertGrouped le a b = true ↔
       ((a.map Prod.fst).Perm (b.map Prod.fst) ∧
         ∀ k vs ws, (k, vs) ∈ a → (k, ws) ∈ b → vs.Perm ws) :=
-  ⟨fun h => ⟨assertGrouped_sound_keys le a b h, assertGrouped_sound_values le a b (Or.inl hna) h⟩,
+  ⟨fun h => ⟨assertGrouped_sound_keys le a b h, assertGrouped_sound_values le a b hnd h⟩,
    fun h => assertGrouped_complete le trans total antisymm a b h.1 h.2⟩
 
 /-- In particular it never accepts grouped collections in which a key's group differs only in how
@@ -276,51 +467,16 @@ theorem assertGrouped_rejects_multiplicity (le : κ → κ → Bool) (a b : List
   | true =>
     exact absurd (List.perm_iff_count.mp (assertGrouped_sound_values le a b hnd h k vs ws ha hb) x) hc
 
-/-! ### inputs with a repeated key (not "grouped data"; outside the property, stated for completeness) -/
-
-/-- Soundness for ANY input (repeated keys allowed, any `le`): acceptance means that the rows of the
-    two sides can be arranged so that they agree position by position in key and value multiset. -/
-theorem assertGrouped_sound_any (le : κ → κ → Bool) (a b : List (κ × List α))
-    (h : assertGrouped le a b = true) :
-    ∃ a' b' : List (κ × List α), a'.Perm a ∧ b'.Perm b ∧ a'.length = b'.length ∧
-      ∀ p ∈ a'.zip b', p.1.1 = p.2.1 ∧ p.1.2.Perm p.2.2 :=
-  ⟨sortByKey le a, sortByKey le b, sortByKey_perm le a, sortByKey_perm le b,
-    (assertGrouped_iff_sorted le a b).mp h⟩
-
-/-- … hence, for ANY input, the key/value rows the two sides stand for are equal as multisets: the
-    grouped assertion never accepts two collections that differ in how often a `(key, value)` occurs. -/
-theorem assertGrouped_flatten (le : κ → κ → Bool) (a b : List (κ × List α))
-    (h : assertGrouped le a b = true) : (flattenGroups a).Perm (flattenGroups b) := by
-  obtain ⟨hl, hz⟩ := (assertGrouped_iff_sorted le a b).mp h
-  have h1 : (flattenGroups (sortByKey le a)).Perm (flattenGroups a) :=
-    (sortByKey_perm le a).flatMap_right _
-  have h2 : (flattenGroups (sortByKey le b)).Perm (flattenGroups b) :=
-    (sortByKey_perm le b).flatMap_right _
-  exact h1.symm.trans ((flattenGroups_perm_of_zip _ _ hl hz).trans h2)
-
-/-- With a repeated key the *completeness* direction fails: the two sides below are the same multiset
-    of groups, but the stable sort leaves the two groups of key 0 in input order and they are
-    compared position by position. -/
-theorem assertGrouped_repeated_key_rejects :
-    assertGrouped leNat [(0, [1]), (0, [2])] [(0, [2]), (0, [1])] = false ∧
-      ([(0, [1]), (0, [2])] : List (Nat × List Nat)).Perm [(0, [2]), (0, [1])] := by
-  constructor
-  · simp only [assertGrouped]
-    rw [sortByKey_of_sorted leNat _ (by decide), sortByKey_of_sorted leNat _ (by decide)]
-    decide
-  · exact List.Perm.swap _ _ _
-
 /-- With a repeated key the right-hand side of `assertGrouped_iff` is no longer implied by acceptance
-    (it is not the right specification there: it would relate *different* groups of the same key):
-    the assertion accepts `a` against itself, as it must. -/
+    (it is not the right specification there: it would relate *different* groups of the same key; the
+    specification for all inputs is `GroupsEquiv`): the assertion accepts `a` against itself, as it must. -/
 theorem assertGrouped_repeated_key_spec :
     assertGrouped leNat [(0, [1]), (0, [2])] [(0, [1]), (0, [2])] = true ∧
       ¬ (∀ k vs ws, (k, vs) ∈ ([(0, [1]), (0, [2])] : List (Nat × List Nat)) →
           (k, ws) ∈ ([(0, [1]), (0, [2])] : List (Nat × List Nat)) → vs.Perm ws) := by
   constructor
-  · simp only [assertGrouped]
-    rw [sortByKey_of_sorted leNat _ (by decide)]
-    decide
+  · exact assertGrouped_accepts_perm leNat leNat_order.1 leNat_order.2.1 leNat_order.2.2 _ _
+      (List.Perm.refl _)
   · intro h
     have := h 0 [1] [2] (by simp) (by simp)
     simp at this
@@ -341,7 +497,155 @@ theorem assertGrouped_rejects_witness :
    assertGrouped_rejects_multiplicity leNat _ _ (Or.inl (by decide)) 0 [1, 1, 2] [1, 2, 2] (by simp)
       (by simp) 1 (by decide)⟩
 
+/-! ## maps (`assert_maps_equal`; a map = the list of its entries, keys pairwise distinct) -/
+
+/-- **C20 (maps)**: `assert_maps_equal` returns **iff** the two maps have the same entries (equal as
+    multisets of entries = equal as sets of entries, the keys being pairwise distinct). -/
+theorem assertMaps_iff (a e : List (κ × α)) (hna : (a.map Prod.fst).Nodup)
+    (hne : (e.map Prod.fst).Nodup) : assertMaps a e = true ↔ a.Perm e := by
+  simp only [assertMaps, Bool.and_eq_true, beq_iff_eq, List.all_eq_true]
+  constructor
+  · rintro ⟨hl, h⟩
+    refine perm_of_subset_of_length_eq e a (nodup_of_nodup_keys e hne) ?_ hl
+    rintro ⟨k, v⟩ hkv
+    have := h (k, v) hkv
+    simp only at this
+    cases hlk : a.lookup k with
+    | none => rw [hlk] at this; simp at this
+    | some v' =>
+      rw [hlk] at this
+      have hv : v' = v := by simpa using this
+      subst hv
+      exact (lookup_eq_some_iff_mem a hna k v').mp hlk
+  · intro hp
+    refine ⟨hp.length_eq, ?_⟩
+    rintro ⟨k, v⟩ hkv
+    have : a.lookup k = some v := (lookup_eq_some_iff_mem a hna k v).mpr (hp.mem_iff.mpr hkv)
+    simp [this]
+
+/-- the same, as extensional equality of the two maps -/
+theorem assertMaps_iff_lookup (a e : List (κ × α)) (hna : (a.map Prod.fst).Nodup)
+    (hne : (e.map Prod.fst).Nodup) : assertMaps a e = true ↔ ∀ k, a.lookup k = e.lookup k := by
+  rw [assertMaps_iff a e hna hne,
+    List.perm_ext_iff_of_nodup (nodup_of_nodup_keys a hna) (nodup_of_nodup_keys e hne)]
+  constructor
+  · intro h k
+    apply Option.ext
+    intro v
+    rw [lookup_eq_some_iff_mem a hna, lookup_eq_some_iff_mem e hne]
+    exact h (k, v)
+  · rintro h ⟨k, v⟩
+    rw [← lookup_eq_some_iff_mem a hna, ← lookup_eq_some_iff_mem e hne, h k]
+
+/-- the answer does not depend on the (arbitrary) iteration order of either hash map -/
+theorem assertMaps_perm (a a' e e' : List (κ × α)) (hna : (a.map Prod.fst).Nodup)
+    (hne : (e.map Prod.fst).Nodup) (ha : a.Perm a') (he : e.Perm e') :
+    assertMaps a e = assertMaps a' e' := by
+  have hna' : (a'.map Prod.fst).Nodup := (ha.map Prod.fst).nodup_iff.mp hna
+  have hne' : (e'.map Prod.fst).Nodup := (he.map Prod.fst).nodup_iff.mp hne
+  rw [Bool.eq_iff_iff, assertMaps_iff a e hna hne, assertMaps_iff a' e' hna' hne']
+  exact ⟨fun h => ha.symm.trans (h.trans he), fun h => ha.trans (h.trans he.symm)⟩
+
+/-- the hypotheses of `assertMaps_iff` hold for every map built by `insert` calls … -/
+theorem mkMap_keys_nodup (rows : List (κ × α)) : ((mkMap rows).map Prod.fst).Nodup :=
+  foldl_insertKV_nodup rows [] List.nodup_nil
+
+/-- … which holds, for every key, the LAST value inserted for it -/
+theorem mkMap_lookup (rows : List (κ × α)) (k : κ) :
+    (mkMap rows).lookup k = rows.reverse.lookup k := by
+  simp [mkMap, foldl_insertKV_lookup]
+
+/-- what the driver evaluates: two maps given by their insert sequences are accepted iff every key
+    ends up with the same value (or is absent) on both sides -/
+theorem assertMaps_mkMap_iff (a b : List (κ × α)) :
+    assertMaps (mkMap a) (mkMap b) = true ↔ ∀ k, a.reverse.lookup k = b.reverse.lookup k := by
+  rw [assertMaps_iff_lookup _ _ (mkMap_keys_nodup a) (mkMap_keys_nodup b)]
+  simp only [mkMap_lookup]
+
+/-- witnesses: a differing value, a missing key and an extra key are rejected; insertion order and
+    overwritten entries do not matter -/
+theorem assertMaps_witnesses :
+    assertMaps (mkMap [((1 : Int), (1 : Int)), (2, 2)]) (mkMap [(1, 1), (2, 3)]) = false ∧
+    assertMaps (mkMap [((1 : Int), (1 : Int)), (2, 2)]) (mkMap [(1, 1), (3, 2)]) = false ∧
+    assertMaps (mkMap [((1 : Int), (1 : Int)), (2, 2)]) (mkMap [(1, 1)]) = false ∧
+    assertMaps (mkMap [((1 : Int), (0 : Int)), (2, 2), (1, 1)]) (mkMap [(2, 2), (1, 1)]) = true := by
+  decide
+
+/-! ## size, membership and predicate assertions -/
+
+/-- `assert_collection_size` returns iff the collection has exactly that many elements -/
+theorem assertSize_iff (c : List α) (n : Nat) : assertSize c n = true ↔ c.length = n := by
+  simp [assertSize]
+
+/-- `assert_contains` returns iff the element occurs in the collection -/
+theorem assertContains_iff (c : List α) (x : α) : assertContains c x = true ↔ x ∈ c := by
+  simp [assertContains]
+
+/-- `assert_all` returns iff every element satisfies the predicate -/
+theorem assertAll_iff (p : α → Bool) (c : List α) : assertAll p c = true ↔ ∀ x ∈ c, p x = true := by
+  simp [assertAll]
+
+/-- `assert_any` returns iff some element satisfies the predicate -/
+theorem assertAny_iff (p : α → Bool) (c : List α) : assertAny p c = true ↔ ∃ x ∈ c, p x = true := by
+  simp [assertAny]
+
+/-- `assert_none` returns iff no element satisfies the predicate … -/
+theorem assertNone_iff (p : α → Bool) (c : List α) : assertNone p c = true ↔ ∀ x ∈ c, p x = false := by
+  simp [assertNone]
+
+/-- … i.e. exactly when `assert_any` panics; and `assert_contains` is `assert_any` of `== x` -/
+theorem assertNone_eq_not_any (p : α → Bool) (c : List α) : assertNone p c = !assertAny p c := by
+  simp [assertNone, assertAny, List.all_eq_not_any_not]
+
+theorem assertContains_eq_any (c : List α) (x : α) : assertContains c x = assertAny (· == x) c := by
+  rw [Bool.eq_iff_iff, assertContains_iff, assertAny_iff]
+  simp
+
+/-- none of the five looks at the order of the elements -/
+theorem assert_pred_perm (p : α → Bool) (a b : List α) (x : α) (n : Nat) (h : a.Perm b) :
+    assertAll p a = assertAll p b ∧ assertAny p a = assertAny p b ∧ assertNone p a = assertNone p b ∧
+      assertContains a x = assertContains b x ∧ assertSize a n = assertSize b n := by
+  refine ⟨h.all_eq, h.any_eq, h.all_eq, ?_, ?_⟩
+  · rw [Bool.eq_iff_iff, assertContains_iff, assertContains_iff]; exact h.mem_iff
+  · simp [assertSize, h.length_eq]
+
+/-! ## the instances the driver evaluates (`i64` keys as `Int`, order `leInt`) -/
+
+theorem assertKv_leInt_iff (a b : List (Int × α)) : assertKv leInt a b = true ↔ a.Perm b :=
+  assertKv_iff leInt leInt_order.1 leInt_order.2.1 leInt_order.2.2 a b
+
+theorem assertGrouped_leInt_iff (a b : List (Int × List α)) :
+    assertGrouped leInt a b = true ↔ GroupsEquiv a b :=
+  assertGrouped_iff_groups leInt leInt_order.1 leInt_order.2.1 leInt_order.2.2 a b
+
 /-! ## non-vacuity: concrete non-trivial inputs satisfy the hypotheses and both sides of the iffs -/
+
+/-- `assertGrouped_iff_groups` with a repeated key on both sides: the groups of key 0 are listed in
+    a different relative order and with their values permuted (true ↔ true) -/
+example :
+    let a : List (Int × List Int) := [(0, [1, 2]), (1, [7]), (0, [3])]
+    let b : List (Int × List Int) := [(0, [3]), (0, [2, 1]), (1, [7])]
+    assertGrouped leInt a b = true ∧ GroupsEquiv a b := by
+  intro a b
+  have hg : GroupsEquiv a b := by
+    refine ⟨[(0, [2, 1]), (1, [7]), (0, [3])], ?_, rfl, ?_⟩
+    · exact ((List.Perm.swap _ _ _).trans ((List.Perm.swap _ _ _).cons _)).symm
+    · intro p hp
+      simp only [a, List.zip_cons_cons, List.zip_nil_right, List.mem_cons, List.mem_nil_iff,
+        or_false] at hp
+      rcases hp with rfl | rfl | rfl
+      · exact ⟨rfl, List.Perm.swap _ _ _⟩
+      · exact ⟨rfl, List.Perm.refl _⟩
+      · exact ⟨rfl, List.Perm.refl _⟩
+  exact ⟨(assertGrouped_leInt_iff a b).mpr hg, hg⟩
+
+/-- `assertMaps_iff`: hypotheses and both sides for two maps listed in different entry orders -/
+example :
+    let a : List (Int × Int) := [(1, 10), (2, 20), (3, 30)]
+    let e : List (Int × Int) := [(3, 30), (1, 10), (2, 20)]
+    (a.map Prod.fst).Nodup ∧ (e.map Prod.fst).Nodup ∧ assertMaps a e = true := by
+  decide
+
 
 /-- `assertKv_iff`: repeated key, rows of that key in a different relative order (true ↔ true) -/
 example : assertKv leNat [(2, 5), (1, 7), (1, 8)] [(1, 8), (1, 7), (2, 5)] = true ∧
